@@ -47,8 +47,37 @@ func (a dtAtoms) I(name string) int64 {
 	}
 	return v
 }
+// canonEq names an equality atom "X==Y" with its operands in the engine's fixed order (nil stays on the right).
+func canonEq(name string) string {
+	suffix := ""
+	if k := strings.LastIndex(name, "#"); k > 0 && !strings.ContainsAny(name[k:], "=()") {
+		name, suffix = name[:k], name[k:]
+	}
+	depth := 0
+	for i := 0; i+1 < len(name); i++ {
+		switch name[i] {
+		case '(', '[':
+			depth++
+		case ')', ']':
+			depth--
+		case '=':
+			if depth == 0 && name[i+1] == '=' {
+				x, y := name[:i], name[i+2:]
+				if strings.Contains(y, "==") {
+					return name + suffix
+				}
+				if y < x && y != "nil" {
+					x, y = y, x
+				}
+				return x + "==" + y + suffix
+			}
+		}
+	}
+	return name + suffix
+}
+
 func (a dtAtoms) B(name string) bool {
-	name = a.tr(name)
+	name = a.tr(canonEq(name))
 	v, ok := a.env.bools[name]
 	if !ok {
 		panic("decision table refers to unknown atom " + name)
@@ -452,6 +481,9 @@ func runDecisionRows(c *core.Ctx, e *Env, pkgPath, defaultType string, rows []dt
 			recv = info.Defs[fn.Decl.Recv.List[0].Names[0]]
 		}
 		fr := &dtFrame{info: info, subst: map[types.Object]dtBound{}, recv: recv}
+		for bi := range row.bools {
+			row.bools[bi] = canonEq(row.bools[bi])
+		}
 		ev := newDtEval(e)
 		ev.occ = row.occ
 		ev.root = fn.Body()
